@@ -212,3 +212,28 @@ func configTarget(t string) configapi.TargetID { return configapi.TargetID(t) }
 func connID(s string) sb.ConnID { return sb.ConnID(s) }
 
 func ctxBg() context.Context { return context.Background() }
+
+// GetProtoConfig reads a target's whole configuration as a model.Config.
+func (w *World) GetProtoConfig(target string) (model.Config, bool, error) {
+	p := &gpb.Path{Target: target}
+	resp, err, pan, st := w.Get(&gpb.GetRequest{Path: []*gpb.Path{p}, Encoding: gpb.Encoding_PROTO}, nil)
+	if pan != nil {
+		return nil, false, fmt.Errorf("Get panicked: %v\n%s", pan, st)
+	}
+	if err != nil {
+		return nil, false, err
+	}
+	out := model.Config{}
+	empty := false
+	for _, n := range resp.Notification {
+		for _, u := range n.Update {
+			if u.Val == nil {
+				empty = true
+				continue
+			}
+			mp := model.FromGnmi(u.Path.Elem)
+			out[mp.String()] = model.Leaf{Path: mp, Value: model.FromGnmiValue(u.Val)}
+		}
+	}
+	return out, empty, nil
+}
